@@ -8,5 +8,9 @@ pub fn validate(s: &str) -> Result<(), Error> {
         validate_id(s, b'$')?;
     }
 
+    if s.as_bytes().contains(&b'\0') {
+        return Err(Error::InvalidCharacters);
+    }
+
     Ok(())
 }
